@@ -317,3 +317,91 @@ pub fn replay(path: &str) -> i32 {
         }
     }
 }
+
+/// Replay tier: every saved case under replays/regressions and replays/found-before-fix that belongs to
+/// `prop` is re-run first, without any generator.  Returns (ran, skipped, violated files).
+pub fn regression_tier(prop: &str, include_slow: bool) -> (usize, usize, Vec<String>) {
+    let dir = dv_core::evidence::verif_dir().join("replays");
+    let mut files: Vec<std::path::PathBuf> = vec![];
+    for sub in ["regressions", "found-before-fix"] {
+        if let Ok(rd) = std::fs::read_dir(dir.join(sub)) {
+            for e in rd.flatten() {
+                let n = e.file_name().to_string_lossy().to_string();
+                if n.starts_with(&format!("{prop}-")) && n.ends_with(".json") {
+                    files.push(e.path());
+                }
+            }
+        }
+    }
+    files.sort();
+    if prop == "C16" && !include_slow {
+        return (0, files.len(), vec![]);
+    }
+    let reg = if files.is_empty() { None } else { Some(registry()) };
+    let (mut ran, mut skipped, mut bad) = (0, 0, vec![]);
+    for f in files {
+        let Ok(s) = std::fs::read_to_string(&f) else { continue };
+        let Ok(j) = serde_json::from_str::<J>(&s) else { continue };
+        // cases over generated types are only meaningful for the very same program text
+        if j["case"]["origin"].as_str() == Some("gen") {
+            let same = reg
+                .as_ref()
+                .and_then(|r| r.find(j["case"]["type"].as_str().unwrap_or("")).map(|i| r.entries[i].source == j["case"]["type_source"].as_str().unwrap_or("")))
+                .unwrap_or(false);
+            if !same {
+                skipped += 1;
+                continue;
+            }
+        }
+        let code = replay_quiet(&f.to_string_lossy());
+        match code {
+            0 => ran += 1,
+            1 => {
+                ran += 1;
+                println!("VIOLATION property={prop} replay={}", f.display());
+                println!("  signature: regression-replay|{}", j["signature"].as_str().unwrap_or("?"));
+                bad.push(f.display().to_string());
+            }
+            _ => skipped += 1,
+        }
+    }
+    (ran, skipped, bad)
+}
+
+/// like `replay` but silent on success / undecodable cases
+pub fn replay_quiet(path: &str) -> i32 {
+    let Ok(s) = std::fs::read_to_string(path) else { return 2 };
+    let Ok(j) = serde_json::from_str::<J>(&s) else { return 2 };
+    let prop = j["property"].as_str().unwrap_or("").to_string();
+    match prop.as_str() {
+        "C13" | "C16" | "C17" | "C18" | "C19" => return replay(path),
+        _ => {}
+    }
+    let reg = registry();
+    let Some(test) = test_fn(&prop) else { return 2 };
+    let Ok(case) = case_from_json(&reg, &j["case"]) else { return 2 };
+    match test(&reg, &case, None) {
+        Verdict::Violation(..) => 1,
+        _ => 0,
+    }
+}
+
+pub fn test_fn(prop: &str) -> Option<TestFn> {
+    Some(match prop {
+        "C01" => crate::c01::test,
+        "C02" => crate::c02::test,
+        "C03" => crate::c03::test,
+        "C04" => crate::c04::test,
+        "C05" => crate::c05::test,
+        "C06" => crate::derived::test_c06,
+        "C07" => crate::derived::test_c07,
+        "C08" => crate::derived::test_c08,
+        "C09" => crate::derived::test_c09,
+        "C10" => crate::derived::test_c10,
+        "C11" => crate::derived::test_c11,
+        "C12" => crate::c12::test,
+        "C14" => crate::c14::test,
+        "C15" => crate::c15::test,
+        _ => return None,
+    })
+}
